@@ -5,12 +5,7 @@ CONSTANTS
   NVals = 2
   Ops = {"New", "ParseAbsent", "ParsePresent", "DeepCopy", "MkCopy", "UpdateFrom", "MutateNested", "Drop"}
   MaxOps = 0
-  ShareAbsent = FALSE
+  ShareAbsent = TRUE
   ShallowCopy = FALSE
 VIEW view
-INVARIANT TypeOK
-INVARIANT NoSharing
 INVARIANT DefaultStable
-PROPERTY Isolated
-PROPERTY DefaultUntouched
-PROPERTY ObsSound
